@@ -859,40 +859,29 @@ impl StorageEngine {
         if let Some(stored_value) = shard_guard.data.get_mut(key) {
             let result = match &stored_value.value {
                 Value::SortedSet(skiplist) => {
-                    let len = skiplist.len();
-                    if len == 0 {
+                    // Same index rules as LRANGE, applied to the (reversed) order
+                    let len = skiplist.len() as isize;
+                    let mut start = if start < 0 { len.saturating_add(start) } else { start };
+                    let mut stop = if stop < 0 { len.saturating_add(stop) } else { stop };
+                    if start < 0 {
+                        start = 0;
+                    }
+                    
+                    if start > stop || start >= len {
                         Vec::new()
                     } else {
-                        let start_idx = if start < 0 { 
-                            (len as isize + start).max(0) as usize
-                        } else {
-                            start as usize
-                        };
-                        
-                        let stop_idx = if stop < 0 {
-                            (len as isize + stop).max(0) as usize
-                        } else {
-                            stop as usize
-                        };
+                        if stop >= len {
+                            stop = len - 1;
+                        }
+                        let (start, stop, len) = (start as usize, stop as usize, len as usize);
                         
                         if reverse {
-                            let real_start = len.saturating_sub(1).saturating_sub(stop_idx.min(len.saturating_sub(1)));
-                            let real_stop = len.saturating_sub(1).saturating_sub(start_idx.min(len.saturating_sub(1)));
-                            
-                            let range = skiplist.range_by_rank(real_start, real_stop);
+                            let range = skiplist.range_by_rank(len - 1 - stop, len - 1 - start);
                             let mut items = range.items;
                             items.reverse();
                             items
                         } else {
-                            if start_idx >= len || start_idx > stop_idx {
-                                Vec::new()
-                            } else {
-                                let start_idx = start_idx.min(len - 1);
-                                let stop_idx = stop_idx.min(len - 1);
-                                
-                                let range = skiplist.range_by_rank(start_idx, stop_idx);
-                                range.items
-                            }
+                            skiplist.range_by_rank(start, stop).items
                         }
                     }
                 }
